@@ -346,6 +346,12 @@ func (ex *Exec) step(st *State, fr *Frame, instr ssa.Instruction, prev *ssa.Basi
 		t := deref(in.Type())
 		switch kindOf(t) {
 		case KStruct:
+			if !structEscapes(in) {
+				// a struct local whose address never leaves the function: kept as a value
+				fr.Cells[in] = ex.zeroVal(st, t)
+				fr.Regs[in] = AddrV{Loc{Kind: LCell, Frame: fr.ID, Alloc: in, Typ: t}}
+				return
+			}
 			fr.Regs[in] = ex.newStruct(st, t)
 		case KArray:
 			fr.Regs[in] = ex.newArray(st, t.Underlying().(*types.Array).Elem(), true)
@@ -378,6 +384,12 @@ func (ex *Exec) step(st *State, fr *Frame, instr ssa.Instruction, prev *ssa.Basi
 		fr.Regs[in] = ex.binop(st, in.Op, ex.val(st, fr, in.X), ex.val(st, fr, in.Y), in.X.Type(), in.Type(), in)
 	case *ssa.FieldAddr:
 		base := ex.val(st, fr, in.X)
+		if a, isAddr := base.(AddrV); isAddr && (a.L.Kind == LCell || a.L.Kind == LCellPath) {
+			stt := structOf(deref(in.X.Type()))
+			path := append(append([]int(nil), a.L.Path...), in.Field)
+			fr.Regs[in] = AddrV{Loc{Kind: LCellPath, Frame: a.L.Frame, Alloc: a.L.Alloc, Typ: stt.Field(in.Field).Type(), Path: path}}
+			return
+		}
 		bt, ok := base.(Term)
 		if !ok {
 			ex.unsupported("FieldAddr on %T", base)
@@ -445,7 +457,7 @@ func (ex *Exec) step(st *State, fr *Frame, instr ssa.Instruction, prev *ssa.Basi
 		c := ex.freshRef(st, "chan")
 		sz, _ := ex.val(st, fr, in.Size).(Term)
 		ex.safe(st, Le(IntT(0), sz), in, "makechan: size out of range")
-		ex.initChan(st, c, sz)
+		ex.initChan(st, c, sz, in.Type().Underlying().(*types.Chan).Elem())
 		fr.Regs[in] = c
 	case *ssa.MakeClosure:
 		bind := make([]Val, len(in.Bindings))
@@ -791,7 +803,7 @@ func (ex *Exec) indexAddr(st *State, fr *Frame, in *ssa.IndexAddr) {
 			s = ex.coerce(base, in.X.Type()).(SliceV)
 		}
 		ex.safe(st, And(Le(IntT(0), idx), Lt(idx, s.Len)), in, "index out of range")
-		l := ex.elemLoc(xt.Elem(), s.Arr, Add(s.Off, idx))
+		l := ex.elemLoc(xt.Elem(), s.Arr, Ix(s.Off, idx))
 		ex.setAddrReg(fr, in, l, xt.Elem())
 	case *types.Pointer:
 		at := xt.Elem().Underlying().(*types.Array)
@@ -1113,4 +1125,49 @@ func (ex *Exec) checkGuard(st *State, g *ssa.Global, instr ssa.Instruction) {
 	ref, _ := ex.globalAddr(lk).(Term)
 	held := Select(ex.heap(st, "ghost:sync.Mutex.held", ArrSort(SBool)), ref)
 	ex.oblige(st, "guarded", g.Name()+" @ "+ex.srcLine(instr), gd.Props, held, "access to "+g.Name()+" while "+gd.Lock+" is held")
+}
+
+var escapeCache sync.Map
+
+// structEscapes: the address of a struct local is used for anything but field loads and stores.
+func structEscapes(a *ssa.Alloc) bool {
+	if v, ok := escapeCache.Load(a); ok {
+		return v.(bool)
+	}
+	var check func(v ssa.Value) bool
+	check = func(v ssa.Value) bool {
+		refs := v.Referrers()
+		if refs == nil {
+			return true
+		}
+		for _, r := range *refs {
+			switch x := r.(type) {
+			case *ssa.UnOp:
+				if x.X != v {
+					return true
+				}
+			case *ssa.Store:
+				if x.Addr != v || x.Val == v {
+					return true
+				}
+			case *ssa.FieldAddr:
+				if x.X != v {
+					return true
+				}
+				if kindOf(deref(x.Type())) == KArray {
+					return true
+				}
+				if check(x) {
+					return true
+				}
+			case *ssa.DebugRef:
+			default:
+				return true
+			}
+		}
+		return false
+	}
+	esc := a.Heap || check(a)
+	escapeCache.Store(a, esc)
+	return esc
 }
